@@ -260,8 +260,45 @@ def _abs_new(ctx) -> None:
     ctx.ob("ABS.total", "AbsoluteDuration.total_seconds", len(r) == 1 and nun(r[0].value) == "abs(self._total)", f"{[nun(x.value) for x in r]}", m.rel)
 
 
+def _digits_tabulate(ctx, m) -> None:
+    """RADIX.tabulated: the lazily computed hours / minutes / remaining_seconds (and weeks / remaining_days / microseconds accessors)
+    evaluated by the checker's interpreter on Duration instance stubs for seconds parts on both sides of every unit boundary and
+    both signs, twice in a row (the cache): each must be the mixed-radix digit of |seconds part| with its sign, and together with
+    the days they must sum exactly to the stub's length."""
+    from ..rules import durstub
+    bad, n = [], 0
+    try:
+        w = durstub.World(m)
+        for secs in (0, 1, 59, 60, 61, 3599, 3600, 3601, 7325, 86399, 43200):
+            for sg in (1, -1):
+                for days in (0, 3, 16):
+                    if sg < 0 and secs == 0 and days == 0:
+                        continue
+                    us = sg * ((days * 86400 + secs) * 10**6 + 250000)
+                    o = w.normalised(1, -2, us)
+                    a = abs(us) // 10**6 % 86400
+                    want = {"hours": a // 3600 % 24 * sg, "minutes": a // 60 % 60 * sg, "remaining_seconds": a % 60 * sg, "microseconds": 250000 * sg,
+                            "weeks": days // 7 * sg, "remaining_days": days % 7 * sg, "years": 1, "months": -2}
+                    for rnd in (1, 2):
+                        for prop, wv in want.items():
+                            if prop not in w.meths:
+                                continue
+                            n += 1
+                            got = durstub.minieval._attr(o, prop, w.glob, 0)
+                            if got != wv or type(got) is not int:
+                                bad.append(f"a duration of {us} us: {prop} = {got!r} (expected {wv})" + (" on the second read" if rnd == 2 else ""))
+    except durstub.ERRORS as e:
+        ctx.unverified("RADIX.tabulated", "Duration", f"outside the checker's interpreter: {type(e).__name__}: {e}", m.rel)
+        return
+    ctx.ob("RADIX.tabulated", "Duration.hours/minutes/remaining_seconds", not bad, f"{n} reads: " + (f"wrong: {bad[:3]}" if bad else
+           "every component is the digit of the seconds part with its sign, also when read again"), m.rel)
+    if not bad:
+        ctx.established(("RADIX.digit", "RADIX.guard", "RADIX.source"), "Duration.", "RADIX.tabulated")
+
+
 def _digits(ctx) -> None:
     m = pmod("duration")
+    _digits_tabulate(ctx, m)
     can = Canon()
 
     def E(src):
